@@ -36,11 +36,11 @@ type ruleInfo struct {
 
 // Ctx collects obligations while rules run.
 type Ctx struct {
-	P     *Prog
-	Obs   []*Obligation
-	Rules map[string]*ruleInfo // key prop/rule
-	order []string
-	Only  map[string]bool // when set, only these rule names are evaluated (used when one property borrows another's rules)
+	P          *Prog
+	Obs        []*Obligation
+	Rules      map[string]*ruleInfo // key prop/rule
+	order      []string
+	Only       map[string]bool // when set, only these rule names are evaluated (used when one property borrows another's rules)
 	suppressed map[string]bool
 }
 
@@ -77,9 +77,11 @@ func (c *Ctx) add(prop, rule, key, verdict, pos, msg string) {
 	c.Obs = append(c.Obs, &Obligation{Prop: prop, Rule: rule, Key: key, Verdict: verdict, Pos: pos, Msg: msg})
 }
 
-func (c *Ctx) ok(prop, rule, key, pos, msg string)   { c.add(prop, rule, key, Discharged, pos, msg) }
-func (c *Ctx) bad(prop, rule, key, pos, msg string)  { c.add(prop, rule, key, Violated, pos, msg) }
-func (c *Ctx) undecided(prop, rule, key, pos, msg string) { c.add(prop, rule, key, Undecided, pos, msg) }
+func (c *Ctx) ok(prop, rule, key, pos, msg string)  { c.add(prop, rule, key, Discharged, pos, msg) }
+func (c *Ctx) bad(prop, rule, key, pos, msg string) { c.add(prop, rule, key, Violated, pos, msg) }
+func (c *Ctx) undecided(prop, rule, key, pos, msg string) {
+	c.add(prop, rule, key, Undecided, pos, msg)
+}
 
 // verdictIf is a convenience: discharged when cond, else violated.
 func (c *Ctx) verdictIf(cond bool, prop, rule, key, pos, okMsg, badMsg string) {
@@ -164,9 +166,9 @@ func (kf *KnownFile) match(o *Obligation) *KnownFinding {
 // evidence
 
 type propMeta struct {
-	ID         string
-	Explain    string   // what is decided / not decided
-	Assume     []string // assumptions
+	ID      string
+	Explain string   // what is decided / not decided
+	Assume  []string // assumptions
 }
 
 func writeEvidence(dir string, meta propMeta, tier string, seed int64, c *Ctx, configs []string, wall float64, extra map[string]interface{}) (violations int, lines []string, err error) {
@@ -231,13 +233,13 @@ func writeEvidence(dir string, meta propMeta, tier string, seed int64, c *Ctx, c
 		"checker_cmd":         "bin/absnfs-lint -repo /repo -prop " + meta.ID + " -tier " + tier,
 		"trusted_base":        []string{"go/types", "go/ssa + VTA call graph (x/tools v0.29.0)", "binding tables in checker/rules_*.go", "RFC oracle tables in checker/oracles.go"},
 		"analysed": map[string]interface{}{
-			"repo":                c.P.RepoDir,
-			"build_configs":       configs,
-			"packages":            len(c.P.Pkgs),
-			"source_functions":    len(c.P.SrcFuncs),
-			"ssa_instructions":    c.P.NInstr,
-			"callgraph_nodes":     len(c.P.CG.Nodes),
-			"helper_inlining":     c.P.Inline.String(),
+			"repo":             c.P.RepoDir,
+			"build_configs":    configs,
+			"packages":         len(c.P.Pkgs),
+			"source_functions": len(c.P.SrcFuncs),
+			"ssa_instructions": c.P.NInstr,
+			"callgraph_nodes":  len(c.P.CG.Nodes),
+			"helper_inlining":  c.P.Inline.String(),
 		},
 	}
 	for k, v := range extra {
